@@ -124,10 +124,11 @@ theorem log_replay_eq_announced (seq0 : UInt64) (k : Nat) (evs : List LogEvent)
   intro he
   rw [pi.set, he, inv.pub.cur]
 
-/-- a late peer jumps to the snapshot, an up-to-date peer follows op by op -/
+/-- a late peer starts from a snapshot, an up-to-date peer follows op by op; both end with the
+    publisher's set (the outcome does not depend on how often the publisher takes snapshots) -/
 example :
-    let s := (LogSys.init 1000 2).run [.announce 7, .sync 0 1001, .deliver 0, .announce 8, .withdraw 7,
-      .sync 0 1003, .deliver 0, .deliver 0, .sync 1 1003, .deliver 1]
+    let s := (LogSys.init 1000 2).run [.announce 7, .sync 0 1001, .deliver 0, .deliver 0, .announce 8, .withdraw 7,
+      .sync 0 1003, .deliver 0, .deliver 0, .deliver 0, .sync 1 1003, .deliver 1, .deliver 1, .deliver 1, .deliver 1]
     (s.peers.map fun q => (q.known, q.set)) = [(1003, [8]), (1003, [8])] ∧ s.pub.set = [8] := by decide
 
 /-- the announced set by the operations issued (specification side) -/
